@@ -4,11 +4,14 @@
 S=/tmp/repo-matrix
 rm -rf $S $S-out; git clone -q /repo $S || exit 1
 cd /verif
+# the checks run from a snapshot of /verif, so that work on the harness does not disturb a matrix in progress
+export VERIF_ROOT=/tmp/verif-snap
+rm -rf $VERIF_ROOT; mkdir -p $VERIF_ROOT; rsync -a --exclude .git --exclude replays --exclude seeded /verif/ $VERIF_ROOT/
 for d in ${@:-$(ls -d seeded/C*-* | sed 's|seeded/||')}; do
   p=${d%-*}; x=${d#*-}
   extra=$p
-  case $d in C01-B) extra=C01,C04;; C07-A) extra=C07,C06;; C16-B) extra=C16,C17;; C10-A) extra=C10,C17;; C17-A) extra=C17,C10;; C17-B) extra=C17,C05;; esac
+  case $d in C01-B) extra=C01,C04;; C07-A) extra=C07,C06;; C16-B) extra=C16,C17;; C10-A) extra=C10,C17;; C17-A) extra=C17,C10;; C17-B) extra=C17,C05;; C11-C) extra=C11,C06;; C06-D) extra=C06,C11;; C01-D) extra=C01,C16;; C02-C) extra=C02,C10;; C17-C) extra=C17,C10;; C08-D) extra=C08,C09;; C12-D) extra=C12,C14;; C07-C|C07-D) extra=C07,C17;; esac
   tools/seed_eval.py $p $x /nonexistent /verif/seeded/$d/patch.diff /verif/seeded/$d/demo.py --checks $extra --checks-only --scratch $S 2>&1 | grep -v "^stored" | tail -3
 done
-rm -rf $S $S-out
+rm -rf $S $S-out $VERIF_ROOT
 tools/seed_index.py
